@@ -689,7 +689,7 @@ def one_stream(ctx, i, alias_ok, cache, terms, info):
                         cnt["duplicate_announcement"], cnt["wrong_service"], npassed, cnt["inbound_announcement"]))
     info.append(("client", i, cinfo, {"delivered": obs["delivered"], "counts": cnt, "errors": obs["errors"]}))
     mid = [lo for lo in obs["late"] if not lo.get("final")]
-    if mid and not obs["errors"]:
+    if mid and not obs["errors"] and i % 3 == 0:
         lo = mid[-1]
         prefix = []
         for bi, bt in enumerate(bts[:lo["after_batch"] + 1]):
